@@ -36,7 +36,9 @@ func runPeerCurveField(c *engine.Ctx, tp tuple) {
 			onSM2 bool
 		}
 		vs := []variant{
-			{"curve=nil,sm2-point", func(p ecref.Point) *ecdsa.PublicKey { return &ecdsa.PublicKey{X: new(big.Int).Set(p.X), Y: new(big.Int).Set(p.Y)} }, true},
+			{"curve=nil,sm2-point", func(p ecref.Point) *ecdsa.PublicKey {
+				return &ecdsa.PublicKey{X: new(big.Int).Set(p.X), Y: new(big.Int).Set(p.Y)}
+			}, true},
 			{"curve=nist-p256,nist-point", func(p ecref.Point) *ecdsa.PublicKey {
 				return &ecdsa.PublicKey{Curve: elliptic.P256(), X: new(big.Int).Set(nx), Y: new(big.Int).Set(ny)}
 			}, false},
